@@ -117,6 +117,12 @@ func wodCheck(e *Context, addLine IntType, pool IntType, points IntType, thresho
 
 // RollWoD 返回: 成功数，总骰数，轮数，细节
 func RollWoD(src *rand.PCGSource, addLine IntType, pool IntType, points IntType, threshold IntType, isGE bool, mode int) (IntType, IntType, IntType, string) {
+	successCount, allRollCount, addTimes, detailText, _ := rollWoDLimited(src, addLine, pool, points, threshold, isGE, mode, 0)
+	return successCount, allRollCount, addTimes, detailText
+}
+
+// rollWoDLimited 同 RollWoD，但总骰数超过 maxRolls(0为不限) 时停止加骰并返回 exceeded=true，用于算力限制
+func rollWoDLimited(src *rand.PCGSource, addLine IntType, pool IntType, points IntType, threshold IntType, isGE bool, mode int, maxRolls IntType) (IntType, IntType, IntType, string, bool) {
 	var details []string
 	addTimes := 1
 
@@ -163,6 +169,9 @@ func RollWoD(src *rand.PCGSource, addLine IntType, pool IntType, points IntType,
 		}
 
 		allRollCount += addCount
+		if maxRolls > 0 && allRollCount > maxRolls {
+			return successCount, allRollCount, IntType(addTimes), "", true
+		}
 		// 有加骰，再骰一次
 		if addCount > 0 {
 			addTimes += 1
@@ -193,7 +202,7 @@ func RollWoD(src *rand.PCGSource, addLine IntType, pool IntType, points IntType,
 	detailText = fmt.Sprintf("成功%d/%d%s%s", successCount, allRollCount, roundsText, detailText)
 
 	// 成功数，总骰数，轮数，细节
-	return successCount, allRollCount, IntType(addTimes), detailText
+	return successCount, allRollCount, IntType(addTimes), detailText, false
 }
 
 func doubleCrossCheck(ctx *Context, addLine, pool, points IntType) bool {
@@ -216,6 +225,12 @@ func doubleCrossCheck(ctx *Context, addLine, pool, points IntType) bool {
 }
 
 func RollDoubleCross(src *rand.PCGSource, addLine IntType, pool IntType, points IntType, mode int) (IntType, IntType, IntType, string) {
+	resultDice, allRollCount, addTimes, detailText, _ := rollDoubleCrossLimited(src, addLine, pool, points, mode, 0)
+	return resultDice, allRollCount, addTimes, detailText
+}
+
+// rollDoubleCrossLimited 同 RollDoubleCross，但总骰数超过 maxRolls(0为不限) 时停止加骰并返回 exceeded=true，用于算力限制
+func rollDoubleCrossLimited(src *rand.PCGSource, addLine IntType, pool IntType, points IntType, mode int, maxRolls IntType) (IntType, IntType, IntType, string, bool) {
 	var details []string
 	addTimes := 1
 
@@ -251,6 +266,9 @@ func RollDoubleCross(src *rand.PCGSource, addLine IntType, pool IntType, points 
 
 		resultDice += maxDice
 		allRollCount += addCount
+		if maxRolls > 0 && allRollCount > maxRolls {
+			return resultDice, allRollCount, IntType(addTimes), "", true
+		}
 
 		// 有加骰，再骰一次
 		if addCount > 0 {
@@ -288,7 +306,7 @@ func RollDoubleCross(src *rand.PCGSource, addLine IntType, pool IntType, points 
 	}
 
 	// 成功数，总骰数，轮数，细节
-	return resultDice, allRollCount, IntType(addTimes), lastDetail
+	return resultDice, allRollCount, IntType(addTimes), lastDetail, false
 }
 
 // RollCommon (times)d(dicePoints)kl(lowNum) 或 (times)d(dicePoints)kh(highNum)
